@@ -49,7 +49,7 @@ def extra(uni, tier, seed):
     from pyvc.runner import Extra
     from realise import C19 as R
     out = []
-    res = R.loop_bound_obligations()
+    res = R.loop_bound_obligations(thorough=(tier == "thorough"))
     n_ok = 0
     empty_bad = {"unit": [], "nonunit": []}
     for name, verdict, detail in res:
@@ -79,7 +79,7 @@ def extra(uni, tier, seed):
                         "detail": bad[0][1]}))
         else:
             n_ok += 1
-    fam = R.family()
+    fam = R.family(tier == "thorough")
     for kid, ok, detail, src in fam:
         if ok:
             n_ok += 1
